@@ -2,8 +2,23 @@ LOOP_SWAP = ["eventloop_unix.go", "connection_unix.go", "connection_linux.go", "
              "listener_unix.go", "pkg/netpoll/poller_epoll_default.go", "pkg/io/io_linux.go",
              "pkg/socket/sock_cloexec.go", "pkg/socket/fd_unix.go"]
 
+def _c03_driver():
+    # "a loop with a queued shutdown task eventually runs it" is C03's guarantee, which the C06 theorems assume:
+    # the check of C06 therefore also runs C03's wake-up correspondence on the default poller (added after a
+    # seeded change to Polling's self re-wake condition made Run hang and only C03 reported it)
+    import importlib.util, os
+    sp = importlib.util.spec_from_file_location("c03props", os.path.join(os.path.dirname(os.path.abspath(__file__)), "C03.py"))
+    m = importlib.util.module_from_spec(sp)
+    sp.loader.exec_module(m)
+    d = dict(m.PROP["drivers"][0])
+    d["variant"] = "wakeup"
+    d["sites"] = [".*"]
+    return d
+
+
 PROP = dict(
-    drivers=[dict(cmd="drv-engine", family="engine", unix_swap=LOOP_SWAP, args=["-focus", "shutdown"]),
+    drivers=[_c03_driver(),
+             dict(cmd="drv-engine", family="engine", unix_swap=LOOP_SWAP, args=["-focus", "shutdown"]),
              # one loop's share of shutdown as the loop-family driver exercises it (Shutdown actions from every callback,
              # the closing sweep with handlers that write or close inside OnClose, injected I/O failures), judged here only
              # by the shutdown-related oracles; added by the orchestrator after a seeded change (second OnClose from a
